@@ -20,9 +20,10 @@ Scenario families (gen_scenarios; every family rotates over the layout classes a
                              bitfield / have-all arrived before the metadata and must be replayed afterwards)
   magnet_metastall           magnet link, ParallelMetadataDownloads peers that advertise ut_metadata, take the requests and stall for ever;
                              an honest seeder joins later: the metadata must still arrive and the download complete
-  ws_pair_corrupt (heavy)    >= 48 pieces of 256 KiB (web-seed requests span several pieces), two web seeds, one serving an outdated copy
+  ws_pair_corrupt (heavy)    48..72 pieces of 64 or 128 KiB (web-seed requests span several pieces), two web seeds, one serving an outdated copy
                              (every piece wrong), no peer or a late honest peer: completion from the honest web seed
-  ws_many (heavy)            same size, multi-file, two honest web seeds (+ peer): ranges are split / stolen / truncated at file boundaries
+  ws_many (heavy)            48..160 pieces, multi-file (a file boundary in almost every web-seed range), two honest (slow) web seeds and a
+                             fast honest peer: running ranges are shortened / stolen at file boundaries; optionally a slow disk
 """
 import json, os, random, re, subprocess, concurrent.futures as cf
 import vlib
@@ -174,29 +175,44 @@ def gen_scenarios(rng, n, focus):
     return out
 
 
-def gen_heavy(rng, n, first_id):
-    """A few scenarios on torrents of 48..72 pieces of 256 KiB (web-seed requests of 5% of the pieces span several pieces)."""
+def gen_heavy(rng, n, first_id, focus="c10"):
+    """A few scenarios on torrents of 48..160 pieces (web-seed requests of 5% of the pieces span several pieces).
+    ws_pair_corrupt: single file, pieces of 64 / 128 KiB, one web seed serves an outdated copy, the other is honest, no peer or a late one.
+    ws_many: multi-file (a file boundary in almost every web-seed range), two slow honest web seeds and a fast honest peer that keeps
+    taking the tails of their ranges (WebseedStopAt shortens running ranges), optionally a slow disk (every write takes a few ms)."""
     out = []
+    npair = 0
     honest = {"name": "h", "ip": "127.0.0.9", "policy": "honest", "have": "all"}
     for k in range(n):
-        np_ = rng.choice([48, 56, 65, 72])
-        sc = {"id": first_id + k, "unit": 16384, "seed": rng.randrange(1, 1 << 30), "timeoutMs": 30000, "honest": True,
-              "seq": rng.random() < 0.3, "peers": []}
-        if k % 3 != 2:
+        many = (k % 3 != 0) if focus == "c01" else (k % 3 == 2)
+        sc = {"id": first_id + k, "seed": rng.randrange(1, 1 << 30), "timeoutMs": 40000, "honest": True, "seq": rng.random() < 0.3, "peers": []}
+        if not many:
+            np_ = rng.choice([48, 56, 65, 72])
+            unit = rng.choice([4096, 4096, 4096, 8192])        # pieces of 64 KiB, sometimes 128 KiB (the recording storage is slow on big files)
+            if unit == 8192:
+                np_ = 48
             ws = [{"policy": "stale"}, {"policy": "honest"}]
             if rng.random() < 0.5:
                 ws.reverse()
-            sc.update(layout="many%d" % np_, webseeds=ws, heavy="ws_pair_corrupt")
-            if k % 3 == 1:
+            # rarest-first only: in sequential mode the first web-seed requests are single pieces at file ends (no multi-piece range)
+            sc.update(layout="many%d" % np_, unit=unit, webseeds=ws, heavy="ws_pair_corrupt", seq=False)
+            npair += 1
+            if npair % 2 == 0:      # alternately no peer at all / a late honest peer
                 sc["peers"] = [dict(honest, joinAfterMs=rng.choice([200, 500, 900]))]
         else:
-            sc.update(layout="manymulti%d" % np_, webseeds=[{"policy": "honest"}, {"policy": rng.choice(["honest", "slow"])}], heavy="ws_many",
-                      peers=[dict(honest, joinAfterMs=rng.choice([0, 100]))] if rng.random() < 0.6 else [])
+            if rng.random() < 0.7:
+                lay, unit = "manyfiles%d" % rng.choice([96, 128, 160]), rng.choice([1024, 2048])
+            else:
+                lay, unit = "manymulti%d" % rng.choice([48, 56, 65, 72]), 4096
+            sc.update(layout=lay, unit=unit, webseeds=[{"policy": "slow"}, {"policy": rng.choice(["slow", "honest"])}], heavy="ws_many",
+                      peers=[dict(honest, joinAfterMs=rng.choice([0, 20, 60]))] if rng.random() < 0.85 else [])
+            if rng.random() < 0.65:
+                sc["timing"] = [{"when": "write-enter", "n": rng.randint(1, 3), "do": "slow"}]
         out.append(sc)
     return out
 
 
-def run_scenarios(ctx, drv, scenarios, nproc=8, per_timeout=40, flag="-scenarios"):
+def run_scenarios(ctx, drv, scenarios, nproc=8, per_timeout=40, flag="-scenarios", tag=""):
     """Runs the scenarios in nproc child processes; returns (list of raw trace files, crashed scenario records)."""
     shards = [scenarios[i::nproc] for i in range(nproc)]
     shards = [s for s in shards if s]
@@ -209,8 +225,8 @@ def run_scenarios(ctx, drv, scenarios, nproc=8, per_timeout=40, flag="-scenarios
         part = 0
         while todo:
             part += 1
-            sp = ctx.path("sc-%d-%d.ndjson" % (i, part))
-            tp = ctx.path("raw-%d-%d.ndjson" % (i, part))
+            sp = ctx.path("sc%s-%d-%d.ndjson" % (tag, i, part))
+            tp = ctx.path("raw%s-%d-%d.ndjson" % (tag, i, part))
             with open(sp, "w") as fh:
                 for s in todo:
                     fh.write(json.dumps(s) + "\n")
@@ -293,7 +309,12 @@ def project(raw_path, crashed_ids=()):
             elif k == "complete":
                 a.append({"ev": "complete", "filesOK": bool(e["filesOK"])})
             elif k == "timeout":
-                a.append({"ev": "timeout", "what": e["what"], "t": e["t_ms"]})
+                # what the harness itself failed to do (scripted peer could not connect, ...) is part of the diagnosis
+                hs = ["%s:%s" % (x.get("conn", ""), x.get("what")) + ("(%s)" % x["err"][:60] if x.get("err") else "") for x in evs
+                      if (x["ev"] == "conn" and x.get("what") in ("refused", "hs-fail")) or x["ev"] == "harness"]
+                a.append({"ev": "timeout", "what": e["what"], "t": e["t_ms"],
+                          "info": ("harness=[%s] " % ",".join(hs) if hs else "") + " ".join("%s=%s" % (k, e[k]) for k in ("status", "have", "peers", "downloads", "hasInfo", "infoDownloads", "banned",
+                                                                         "lastErr", "silentMs", "waitedMs") if k in e)})
             elif k == "expect":
                 a.append({"ev": "expect", "what": e["what"], "ok": bool(e["ok"]), "sentBad": e["sentBad"], "ip": e["ip"]})
             elif k == "redial":
@@ -315,14 +336,14 @@ def fam_of(sc):
         ("|after-" + sc["after"] if sc.get("after") else "")
 
 
-def judge(ctx, abstract, scen_by_id, own_prefixes, other_note):
-    """abstract: {sid: events}. One TLC pass validates all traces; Trace_Transfer prints '@@VIOL tag line' for every failed
-    obligation. Tags starting with one of own_prefixes are violations of this property; the others belong to another
-    property's check and are only counted."""
-    foreign = {}
+TIME_BASED = ("C10.live", "C10.idle")      # bounded-time judgements: re-executed in isolation before they are reported
+
+
+def tlc_pass(ctx, abstract):
+    """One TLC pass over all traces; returns [(sid, tag, position in that trace)] for every failed obligation."""
     order = sorted(abstract)
     if not order:
-        return foreign
+        return []
     cur = ctx.path("abs.ndjson")
     index = []
     with open(cur, "w") as fh:
@@ -333,21 +354,48 @@ def judge(ctx, abstract, scen_by_id, own_prefixes, other_note):
     res = ctx.tlc_validate("Trace_Transfer", cur, ntraces=len(order), timeout=1800)
     if res["hwm"] is not None and not res["ok"]:
         raise vlib.MachineryError("Trace_Transfer could not explain line %s (driver/spec mismatch):\n%s" % (res["hwm"], res["out"][-2500:]))
-    seen = set()
+    out = []
     for tag, line in res["viols"]:
         n = 0
         for sid, ln in index:
             if n + ln >= line:
                 break
             n += ln
-        pos = line - n
+        out.append((sid, tag, line - n))
+    return out
+
+
+def judge(ctx, abstract, scen_by_id, own_prefixes, other_note, drv=None):
+    """abstract: {sid: events}. One TLC pass validates all traces; Trace_Transfer prints '@@VIOL tag line' for every failed
+    obligation. Tags starting with one of own_prefixes are violations of this property; the others belong to another
+    property's check and are only counted. Time-based candidates (TIME_BASED) are reported only if the same scenario fails the
+    same obligation again when it is re-executed (drv given) with at most one other scenario running; candidates that do not
+    reproduce are listed in the evidence (unreproduced_timing_candidates)."""
+    foreign = {}
+    found = tlc_pass(ctx, abstract)
+    own = lambda tag: any(tag.startswith(p) for p in own_prefixes)
+    again = None
+    cand = sorted({sid for sid, tag, _ in found if tag in TIME_BASED and own(tag)})
+    if cand and drv:
+        vlib.log("re-executing %d time-based candidate scenario(s) in isolation" % len(cand))
+        raws, crashed = run_scenarios(ctx, drv, [scen_by_id[i] for i in cand], nproc=2, per_timeout=90, tag="re")
+        abs2 = {}
+        for rp in raws:
+            abs2.update(project(rp, {c["id"] for c in crashed}))
+        again = {(sid, tag) for sid, tag, _ in tlc_pass(ctx, abs2)} | {(sid, t) for sid in cand if sid not in abs2 for t in TIME_BASED}
+    seen = set()
+    for sid, tag, pos in found:
         ev = abstract[sid][pos - 1] if 0 < pos <= len(abstract[sid]) else {}
         sc = scen_by_id.get(sid, {})
         sig = "tag=%s layout=%s fam=%s ev=%s" % (tag, re.sub(r"\d+$", "", sc.get("layout") or "?"), fam_of(sc), ev.get("ev"))
         if (sid, tag) in seen:
             continue
         seen.add((sid, tag))
-        if any(tag.startswith(p) for p in own_prefixes):
+        if own(tag):
+            if tag in TIME_BASED and again is not None and (sid, tag) not in again:
+                ctx.extra.setdefault("unreproduced_timing_candidates", []).append({"signature": sig, "scenario": sc, "event": ev})
+                vlib.log("time-based candidate not reproduced in isolation (not reported): %s" % sig)
+                continue
             ctx.violation(tag, sig, "download scenario violates %s at %s" % (tag, json.dumps(ev)[:200]),
                           {"scenario": sc, "abstract_trace": abstract[sid][:pos]})
         else:
